@@ -98,6 +98,10 @@ Go ranges over a map in an unspecified order; the list's order stands for whiche
 is to hold for the code must therefore not depend on it (the refinement theorems state where they do not) -/
 def forRangeRet (m : List (κ × ν)) (body : κ × ν → Option ρ) : Option ρ := m.findSome? body
 
+/-- `*p` / the implicit dereference in `p.f` for a pointer that is an `Option`. NOT represented: a nil dereference panics in
+Go; here the zero value comes out (the translated code tests for nil first, and the proofs use that) -/
+def deref [Inhabited α] (p : Option α) : α := p.getD default
+
 /-- `delete(m, k)` -/
 def mapDel [BEq κ] (m : List (κ × ν)) (k : κ) : List (κ × ν) := m.filter fun kv => !(kv.1 == k)
 
